@@ -40,6 +40,7 @@ func main() {
 	if *e2e > 0 {
 		e2eSetup()
 		bigs = append(bigs, e2eBig(gen.New(*seed+78), *big)...)
+		bigs = append(bigs, e2eBursts(*big)...)
 	}
 	randomCases(r, *n, bigs)
 	if *e2e > 0 {
